@@ -217,4 +217,27 @@ def lastFireClock : Rat → List Event → Rat
 def runOps (kids : Entry → List (Rat × Nat)) (fuel : Nat) (h : Hist) (ops : List Op) : Hist :=
   ops.foldl (stepOp kids fuel) h
 
+/-- A history with clock-reading callbacks: the history together with the table of what every
+callback executed so far scheduled. -/
+structure HistC where
+  h : Hist
+  tbl : List (Entry × List (Rat × Nat))
+deriving Repr, DecidableEq
+
+def hinitC : HistC := { h := hinit, tbl := [] }
+
+/-- One interface call with clock-reading callbacks `kidsC`: the run of `evolveUntilC` extends the
+table; the history is advanced by `stepOp` — the object of the history theorems — with the table
+read as entry-only callbacks.  That this `stepOp` reproduces the `evolveUntilC` run is a theorem
+(`stepOpC_evolve_run`), and so is that the whole history is `runOps` with the final table
+(`runOpsC_eq_runOps`). -/
+def stepOpC (kidsC : Rat → Entry → List (Rat × Nat)) (fuel : Nat) (hc : HistC) : Op → HistC
+  | .add time id => { hc with h := stepOp (tableKids hc.tbl) fuel hc.h (.add time id) }
+  | .evolve T =>
+    let tbl := hc.tbl ++ fireTable kidsC (evolveUntilC kidsC fuel hc.h.s T).trace
+    { h := stepOp (tableKids tbl) fuel hc.h (.evolve T), tbl := tbl }
+
+def runOpsC (kidsC : Rat → Entry → List (Rat × Nat)) (fuel : Nat) (hc : HistC) (ops : List Op) : HistC :=
+  ops.foldl (stepOpC kidsC fuel) hc
+
 end HcipyVerif.Scheduler
